@@ -315,6 +315,88 @@ def generate(rng, tier):
         kind = rng.choice(["scalar", "contour", "lightness", "call", "vector"])
         add(kind, fld, filter=None, symmetric=False, filled=False, vdims_arg=None, use_color=False,
             color_field=None, lightness_field=None, clim=None, colorwheel=False)
+    # ---- sequences: caller-side objects shared by several calls (state must not leak between them)
+    SKW = [{"colorbar": False}, {"cmap": "viridis"}, {"colorbar_label": "v"}, {"symmetric_clim": True},
+           {"cmap": "coolwarm", "colorbar": False}]
+    VKW = [{"colorbar": False}, {"width": 0.01}, {"headwidth": 4.0}, {"use_color": False, "width": 0.02}]
+
+    def step(kind, fld, **kw):
+        base = dict(filter=None, symmetric=False, filled=False, vdims_arg=None, use_color=False, color_field=None,
+                    lightness_field=None, clim=None, colorwheel=False)
+        base.update(kw)
+        return dict(kind=kind, field=fld, mult=base.pop("mult", gen_mult(rng, fld)), **base)
+
+    def complete_vector_field(nv):
+        fld = gen_field(rng, tier, nvdim=nv)
+        labels = fld["vdims"] if fld["vdims"] is not None else ["x", "y", "z"][:nv]
+        other = [d for d in ["x", "y", "z", "a", "b", "w"] if d not in fld["dims"]][0]
+        fld["mapping"] = [[labels[k], (fld["dims"] + [other])[k]] for k in range(nv)]
+        return fld
+
+    for _ in range(36 * N):
+        # (a) one scalar_kw / vector_kw pair reused by mpl() on different fields
+        k = rng.choice([2, 2, 3])
+        flds = []
+        for _j in range(k):
+            nv = rng.choice([1, 3, 3, 2])
+            flds.append(gen_field(rng, tier, nvdim=1) if nv == 1 else complete_vector_field(nv))
+            tot = flds[-1]["n"][0] * flds[-1]["n"][1]
+            flds[-1]["valid"] = [rng.random() < 0.6 for _t in range(tot)]      # different masks
+        shared = dict(scalar_kw=rng.choice(SKW + [{}]), vector_kw=rng.choice(VKW + [{}, None]))
+        cases.append(dict(kind="seq", steps=[step("call", fd_) for fd_ in flds], shared=shared,
+                          share_ax=rng.random() < 0.4, share_field=False))
+    for _ in range(14 * N):
+        # (b) one field, successive different plot kinds (state left on the field by an earlier call)
+        if rng.random() < 0.5:
+            fld = gen_field(rng, tier, nvdim=1, nmax=4)
+            fld["n"] = [max(2, k) for k in fld["n"]]
+            tot = fld["n"][0] * fld["n"][1]
+            fld["vals"] = [S(F(rng.randint(0, 50), 8)) for _t in range(tot)]
+            fld["valid"] = [rng.random() < 0.7 for _t in range(tot)]
+            kinds = ["scalar", "contour", "lightness", "call", "scalar"]
+        else:
+            fld = complete_vector_field(3)
+            kinds = ["vector", "lightness", "call", "vector"]
+        rng.shuffle(kinds)
+        mu = gen_mult(rng, fld)
+        steps = []
+        for kd in kinds[:3]:
+            kw = dict(mult=rng.choice([mu, gen_mult(rng, fld)]))
+            if kd == "vector":
+                kw.update(use_color=rng.random() < 0.6)
+            steps.append(step(kd, fld, **kw))
+        cases.append(dict(kind="seq", steps=steps, shared={}, share_ax=rng.random() < 0.5, share_field=True))
+    for _ in range(14 * N):
+        # (c) one Axes and one kwargs dict / vdims list / clim list for successive plots of different fields
+        which = rng.choice(["scalar", "vector", "lightness", "contour"])
+        k = rng.choice([2, 3])
+        shared = {}
+        steps = []
+        if which in ("scalar", "contour"):
+            shared["kwargs"] = rng.choice([{"cmap": "viridis"}, {"colorbar": False}, {"colorbar_label": "q"}])
+            for _j in range(k):
+                fld = gen_field(rng, tier, nvdim=1, nmax=5)
+                if which == "contour":
+                    fld["n"] = [max(2, q_) for q_ in fld["n"]]
+                    tot = fld["n"][0] * fld["n"][1]
+                    fld["vals"] = gen_values(rng, fld["n"], 1, "dyadic")
+                    fld["valid"] = [rng.random() < 0.8 for _t in range(tot)]
+                steps.append(step(which, fld))
+        elif which == "vector":
+            flds = [complete_vector_field(3) for _j in range(k)]
+            for fd_ in flds:
+                fd_["vdims"] = ["a", "b", "c"]
+                fd_["mapping"] = [[lab, tgt] for lab, (_o, tgt) in zip(["a", "b", "c"], fd_["mapping"])]
+            shared["vdims"] = rng.choice([["a", "b"], ["b", "c"], ["c", None], [None, "a"]])
+            steps = [step("vector", fd_, vdims_arg=list(shared["vdims"]), use_color=rng.random() < 0.5) for fd_ in flds]
+        else:
+            shared["clim"] = rng.choice([[S(F(1, 4)), S(F(3, 4))], [S(0), S(F(1, 2))]])
+            shared["colorwheel_args"] = {"width": 0.5, "height": 0.5}
+            for _j in range(k):
+                fld = gen_field(rng, tier, nvdim=1, nmax=4)
+                fld["vals"] = [S(F(rng.randint(0, 50), 8)) for _ in fld["vals"]]
+                steps.append(step("lightness", fld, clim=list(shared["clim"]), colorwheel=rng.random() < 0.5))
+        cases.append(dict(kind="seq", steps=steps, shared=shared, share_ax=rng.random() < 0.7, share_field=False))
     return cases
 
 
@@ -360,11 +442,16 @@ def q_or_none(x):
     return None if (x is None or x is np.ma.masked or (isinstance(x, float) and math.isnan(x))) else S(x)
 
 
-def read_image(ax):
+def n_quivers(ax):
+    return len([c for c in ax.collections if isinstance(c, Quiver)])
+
+
+def read_image(ax, start=0):
+    """the first image added after the `start` images that were there before the call"""
     ims = ax.get_images()
-    if not ims:
+    if len(ims) <= start:
         return None
-    im = ims[0]
+    im = ims[start]
     A = im.get_array()
     ext = [float(v) for v in im.get_extent()]
     data = np.ma.masked_invalid(np.ma.asarray(A, dtype=float))
@@ -373,11 +460,11 @@ def read_image(ax):
     return data, ext
 
 
-def read_quiver(ax):
+def read_quiver(ax, start=0):
     qs = [c for c in ax.collections if isinstance(c, Quiver)]
-    if not qs:
+    if len(qs) <= start:
         return None
-    q = qs[0]
+    q = qs[start]
     k = len(q.X)
     mask = np.zeros(k, bool) if q.Umask is np.ma.nomask else np.asarray(q.Umask, bool).reshape(-1)
     C = q.get_array()
@@ -492,12 +579,61 @@ def close(x, w, s, tol=1e-9):
     return abs(float(x) - float(w)) <= tol * s
 
 
+def arg_snapshot(x):
+    """value of a caller-supplied argument (dict / list / tuple), fields by identity"""
+    if isinstance(x, dict):
+        return ("dict", tuple((k, arg_snapshot(v)) for k, v in x.items()))
+    if isinstance(x, (list, tuple)):
+        return (type(x).__name__, tuple(arg_snapshot(v) for v in x))
+    if isinstance(x, df.Field):
+        return ("field", id(x))
+    return repr(x)
+
+
 def run_case(c):
+    if c["kind"] != "seq":
+        rec = run_step(c, {})
+        if rec["coq"] is not None:
+            rec["coq"] = "[" + rec["coq"] + "]"
+        return rec
+    # a sequence of plot calls that share caller-side objects (style dicts, lists, Axes, field)
+    steps = c["steps"]
+    ctx = {}
+    plt.close("all")
+    if c.get("share_ax"):
+        fig = plt.figure()
+        ctx["ax"] = fig.add_subplot(111)
+        ctx["crec"] = ContourRecorder(ctx["ax"])
+    if c.get("share_field"):
+        ctx["field_obj"] = build_field(steps[0]["field"])
+    sh = c.get("shared") or {}
+    for name in ("scalar_kw", "vector_kw", "kwargs", "colorwheel_args"):
+        if sh.get(name) is not None:
+            ctx[name] = dict(sh[name])          # ONE object for the whole sequence
+    if sh.get("vdims") is not None:
+        ctx["vdims"] = list(sh["vdims"])
+    if sh.get("clim") is not None:
+        ctx["clim"] = [fl(x) for x in sh["clim"]]
+    recs = [run_step(st_, ctx) for st_ in steps]
+    plt.close("all")
+    oracle = sorted({cl for r in recs for cl in r["oracle"]})
+    tags = sorted({t for r in recs for t in r["tags"]})
+    if tags and oracle != ["invalid-cell-drawn"]:
+        tags = []
+    return dict(kind="seq", case=c, oracle=oracle, tags=tags,
+                obs=dict(status="/".join(r["obs"]["status"] for r in recs), steps=[r["obs"] for r in recs]),
+                coq="[" + "; ".join(r["coq"] for r in recs) + "]",
+                key="seq/" + "+".join(r["key"] for r in recs) + f"/{bool(c.get('share_ax'))}/{bool(c.get('share_field'))}/"
+                    f"{sorted(sh)}",
+                size=sum(r["size"] for r in recs) + 100)
+
+
+def run_step(c, ctx):
     kind = c["kind"]
     fd = c["field"]
     rec = dict(kind=kind, case=c, oracle=[], tags=[])
     nd = len(fd["n"])
-    f = build_field(fd)
+    f = ctx.get("field_obj") or build_field(fd)
     flt = build_aux(fd, c.get("filter"))
     cfield = build_aux(fd, c.get("color_field"))
     lfield = build_aux(fd, c.get("lightness_field"))
@@ -505,33 +641,56 @@ def run_case(c):
     mval = None if mu is None else (SI.get(mu[1]) if mu[0] == "si" else fl(mu[1]))
     before = snapshot(f)
     aux_before = [snapshot(x) for x in (flt, cfield, lfield)]
-    plt.close("all")
-    fig = plt.figure()
-    ax = fig.add_subplot(111)
-    crec = ContourRecorder(ax)
+    if ctx.get("ax") is not None:
+        ax, crec = ctx["ax"], ctx["crec"]
+    else:
+        plt.close("all")
+        fig = plt.figure()
+        ax = fig.add_subplot(111)
+        crec = ContourRecorder(ax)
+    i_img, i_quiv, i_cont = len(ax.get_images()), n_quivers(ax), len(crec.calls)
+    # caller-supplied mutable arguments (shared across the steps of a sequence)
+    xkw = ctx.get("kwargs") if (ctx.get("kwargs") is not None and kind in ("scalar", "contour")) else None
+    vd_arg = ctx["vdims"] if (kind == "vector" and ctx.get("vdims") is not None) else c.get("vdims_arg")
+    clim_arg = None
+    if kind == "lightness":
+        if ctx.get("clim") is not None:
+            clim_arg = ctx["clim"]
+        elif c["clim"] is not None:
+            clim_arg = tuple(fl(x) for x in c["clim"])
+    skw_arg = vkw_arg = None
+    if kind == "call":
+        skw_arg = ctx.get("scalar_kw")
+        if skw_arg is None:
+            skw_arg = {} if c.get("filter") is None else {"filter_field": flt}
+        vkw_arg = ctx.get("vector_kw")
+    cw_arg = ctx.get("colorwheel_args") if kind == "lightness" else None
+    caller_args = dict(kwargs=xkw, vdims=vd_arg, clim=clim_arg, scalar_kw=skw_arg, vector_kw=vkw_arg,
+                       colorwheel_args=cw_arg)
+    args_before = {k_: arg_snapshot(v_) for k_, v_ in caller_args.items()}
 
     def call():
-        kw = {}
+        kw = {} if xkw is None else xkw
         if kind == "scalar":
+            ex = {}
             if c.get("filter") is not None:
-                kw["filter_field"] = flt
+                ex["filter_field"] = flt
             if c.get("symmetric"):
-                kw["symmetric_clim"] = True
-            return f.mpl.scalar(ax=ax, multiplier=mval, **kw)
+                ex["symmetric_clim"] = True
+            return f.mpl.scalar(ax=ax, multiplier=mval, **ex, **kw)
         if kind == "contour":
+            ex = {}
             if c.get("filter") is not None:
-                kw["filter_field"] = flt
-            return f.mpl.contour(ax=ax, multiplier=mval, **kw)
+                ex["filter_field"] = flt
+            return f.mpl.contour(ax=ax, multiplier=mval, **ex, **kw)
         if kind == "vector":
-            return f.mpl.vector(ax=ax, multiplier=mval, vdims=c["vdims_arg"], use_color=c["use_color"],
+            return f.mpl.vector(ax=ax, multiplier=mval, vdims=vd_arg, use_color=c["use_color"],
                                 color_field=cfield)
         if kind == "lightness":
-            cl = None if c["clim"] is None else tuple(fl(x) for x in c["clim"])
-            return f.mpl.lightness(ax=ax, multiplier=mval, filter_field=flt, lightness_field=lfield, clim=cl,
-                                   colorwheel=c["colorwheel"])
+            return f.mpl.lightness(ax=ax, multiplier=mval, filter_field=flt, lightness_field=lfield, clim=clim_arg,
+                                   colorwheel=c["colorwheel"], colorwheel_args=cw_arg)
         if kind == "call":
-            skw = {} if c.get("filter") is None else {"filter_field": flt}
-            return f.mpl(ax=ax, multiplier=mval, scalar_kw=skw)
+            return f.mpl(ax=ax, multiplier=mval, scalar_kw=skw_arg, vector_kw=vkw_arg)
         raise ValueError(kind)
 
     st, _ = attempt(call)
@@ -541,6 +700,8 @@ def run_case(c):
         rec["oracle"].append("field-modified")
     if aux_before != aux_after:
         rec["oracle"].append("aux-field-modified")
+    if args_before != {k_: arg_snapshot(v_) for k_, v_ in caller_args.items()}:
+        rec["oracle"].append("caller-argument-modified")
 
     gf = g_field(fd, f)
     gm = g_mult(mu)
@@ -670,10 +831,10 @@ def run_case(c):
         if accepted:
             xl, yl = ax.get_xlabel(), ax.get_ylabel()
             if kind == "scalar":
-                data, ext = read_image(ax)
+                data, ext = read_image(ax, i_img)
                 xs, ys = [], []
             else:
-                _, a, _k = crec.calls[0]
+                _, a, _k = crec.calls[i_cont]
                 X, Y, Z = [np.asarray(v, float) for v in a[:3]]
                 if X.ndim == 2:
                     X, Y = X[0, :], Y[:, 0]
@@ -705,7 +866,7 @@ def run_case(c):
     elif kind == "vector":
         garg = "None" if c["vdims_arg"] is None else "(Some " + g.lst(c["vdims_arg"], g_ostr) + ")"
         if accepted:
-            qo = read_quiver(ax)
+            qo = read_quiver(ax, i_quiv)
             xl, yl = ax.get_xlabel(), ax.get_ylabel()
             obs.update(quiver=dict(X=[S(v) for v in qo["X"]], Y=[S(v) for v in qo["Y"]], U=[S(v) for v in qo["U"]],
                                    V=[S(v) for v in qo["V"]], mask=qo["mask"],
@@ -767,7 +928,7 @@ def run_case(c):
         gt = f"(mkTabs {g.q(twopi)} [{'; '.join(tabs)}] {g.ql(norm_tab)})"
         gclim = "None" if c["clim"] is None else f"(Some ({g.q(c['clim'][0])}, {g.q(c['clim'][1])}))"
         if accepted:
-            data, ext = read_image(ax)
+            data, ext = read_image(ax, i_img)
             xl, yl = ax.get_xlabel(), ax.get_ylabel()
             A = np.asarray(np.ma.filled(data, 0.0), float)
             rows = [[[float(A[r, cc, t]) for t in range(A.shape[2])] for cc in range(A.shape[1])]
@@ -843,8 +1004,8 @@ def run_case(c):
     elif kind == "call":
         if accepted:
             xl, yl = ax.get_xlabel(), ax.get_ylabel()
-            im = read_image(ax)
-            qo = read_quiver(ax)
+            im = read_image(ax, i_img)
+            qo = read_quiver(ax, i_quiv)
             k = check_labels(xl, yl) if nd == 2 else None
             gim = "None"
             if im is not None:
@@ -879,7 +1040,8 @@ def run_case(c):
             coq_obs = "None"
         coq = f"CCall {gf} {gm} {gflt} {coq_obs}"
 
-    plt.close("all")
+    if ctx.get("ax") is None:
+        plt.close("all")
     rec["oracle"] = sorted(set(rec["oracle"]))
     rec["tags"] = sorted(set(rec["tags"]))
     if rec["tags"] and rec["oracle"] != ["invalid-cell-drawn"]:
@@ -899,7 +1061,8 @@ def run_case(c):
 def stats(records):
     out = {}
     for r in records:
-        k = r["kind"] + ("/ok" if r["obs"].get("status") == "ok" else "/refused")
+        st_ = r["obs"].get("status")
+        k = r["kind"] + ("/ok" if st_ == "ok" else f"/{st_}" if r["kind"] == "seq" else "/refused")
         out[k] = out.get(k, 0) + 1
     out["known_tagged"] = sum(1 for r in records if r["tags"])
     return out
